@@ -10,6 +10,7 @@ import (
 	"fmt"
 	"os"
 	"path/filepath"
+	"reservoir/logging"
 	"strings"
 	"time"
 
@@ -359,12 +360,34 @@ func main() {
 			os.RemoveAll(envDir + "-tls")
 		}
 	}
+	// configuration values: file logging switched off (logging.file = "", the documented way), then the log reader the
+	// API's /api/log handler calls first: an error ("no log file"), never a panic
+	{
+		cfg := config.NewDefault()
+		cfg.Logging.ToStdout.Overwrite(false)
+		cfg.Logging.File.Overwrite("")
+		logging.Init(cfg)
+		e2elib.Quiet()
+		total++
+		dist["log-reader-without-log-file"]++
+		func() {
+			defer func() {
+				if p := recover(); p != nil {
+					failures = append(failures, failure{tcase{Stream: "config", Desc: "logging.file = \"\" (file logging off), then logging.OpenLogFileRead() as GET /api/log does"}, fmt.Sprintf("panic: %v", p)})
+				}
+			}()
+			if f, err := logging.OpenLogFileRead(); err == nil {
+				f.Close()
+				failures = append(failures, failure{tcase{Stream: "config", Desc: "logging.file = \"\""}, "a log file was opened although file logging is off"})
+			}
+		}()
+	}
 	if len(failures) > 40 {
 		failures = failures[:40]
 	}
 	out := map[string]any{
 		"harness": "fuzz16", "seed": *flagSeed, "tier": *flagTier, "total": total, "distinct": total, "distinct_nontrivial": total,
-		"rule":         "raw-socket requests against the real proxy (plain absolute-form, CONNECT targets, requests inside TLS tunnels) with mutated request line / Host / Range / If-Range / Cache-Control / conditionals / Connection, and hostile origin status + header sets on fresh, stored and stale entries; x backends {memory,file} x retry settings; every request must get a well-formed response (status line, framing-consistent body) within 8 s",
+		"rule":         "raw-socket requests against the real proxy (plain absolute-form, CONNECT targets, requests inside TLS tunnels) with mutated request line / Host / Range / If-Range / Cache-Control / conditionals / Connection, and hostile origin status + header sets on fresh, stored and stale entries; x backends {memory,file} x retry settings; every request must get a well-formed response (status line, framing-consistent body) within 8 s; plus: the log reader with file logging switched off returns an error, no panic",
 		"distribution": map[string]any{"stream": dist},
 		"samples":      samples, "files": []string{}, "readable": []any{},
 		"direct": map[string]any{"total": total, "failures": failures, "mismatches": []any{}},
